@@ -367,13 +367,14 @@ Qed.
 
 (** ** Global tables: control words, handover spaces, in_use *)
 Definition inuse_eff (m m' : loc -> N) (p : pc) (l l' : tlocal) (nx : next) : Prop :=
-  (forall k, m' (LInUse k) = m (LInUse k)) /\ (tl_node l' = tl_node l \/ exists n r, tl_node l = Some n /\ tl_node l' = None /\ nx = NPush [C1 n] (WExit r))
-  \/ (exists k, p = GCool3 k /\ tl_node l' = tl_node l /\ (forall k', k' <> k -> m' (LInUse k') = m (LInUse k')) /\
+  (m' LHead = m LHead /\ (forall k, m' (LInUse k) = m (LInUse k)) /\
+   (tl_node l' = tl_node l \/ exists n r, tl_node l = Some n /\ tl_node l' = None /\ nx = NPush [C1 n] (WExit r)))
+  \/ (exists k, p = GCool3 k /\ m' LHead = m LHead /\ tl_node l' = tl_node l /\ (forall k', k' <> k -> m' (LInUse k') = m (LInUse k')) /\
                 m (LInUse k) <> NODE_USED /\ m' (LInUse k) <> NODE_USED)
   \/ (exists k, (p = GClaim k \/ (p = GPush k /\ m LHead = k)) /\ (forall k', k' <> k -> m' (LInUse k') = m (LInUse k')) /\
                 (p = GClaim k -> m (LInUse k) = NODE_UNUSED) /\ m' (LInUse k) = NODE_USED /\
                 tl_node l' = Some k /\ nx = NRet (RNode k) /\ (p = GClaim k -> m' LHead = m LHead) /\ (p = GPush k -> m' LHead = k + 1))
-  \/ (exists k, p = C2 k /\ tl_node l' = tl_node l /\ (forall k', k' <> k -> m' (LInUse k') = m (LInUse k')) /\
+  \/ (exists k, p = C2 k /\ m' LHead = m LHead /\ tl_node l' = tl_node l /\ (forall k', k' <> k -> m' (LInUse k') = m (LInUse k')) /\
                 m' (LInUse k) = NODE_COOLDOWN /\ (nx = NGoto (C3 k) \/ exists ps, nx = NPanic ps)).
 
 Lemma node_init_inuse s n k : mem (node_init s n) (LInUse k) = if decide (k = n) then NODE_USED else mem s (LInUse k).
@@ -407,6 +408,7 @@ Proof. unfold enter_pay. intros H. destr_in H; injection H as <- <-; cbn; congru
 
 Ltac iu_close :=
   repeat split; eauto;
+  try (rewrite ?node_init_head; cbn; rewrite ?upd_other by discriminate; reflexivity);
   try (intros [=]; fail);
   try (intros k' Hk; rewrite ?node_init_inuse; try destruct (decide _); try congruence; cbn; apply upd_other; congruence || discriminate);
   try (rewrite ?node_init_inuse; try destruct (decide _); try congruence; rewrite ?upd_same; unfold NODE_COOLDOWN, NODE_USED, NODE_UNUSED in *; congruence || discriminate);
@@ -429,7 +431,13 @@ Proof.
          | H : enter_load _ _ _ = inl (_, _) |- _ => apply enter_load_node in H
          | H : enter_pay _ _ _ = (_, _) |- _ => apply enter_pay_node in H
          end.
-  all: try (left; split;
+  all: try (left; split; [
+             repeat match goal with
+               | H : rc_inc _ _ = Some (?s0, _) |- context [mem ?s0 ?l0] => rewrite (rc_inc_other _ _ _ _ l0 H) by discriminate
+               | H : rc_dec _ _ = Some (?s0, _) |- context [mem ?s0 ?l0] => rewrite (rc_dec_other _ _ _ _ l0 H) by discriminate
+               | H : rc_alloc _ _ = Some (?s0, _) |- context [mem ?s0 ?l0] => rewrite (rc_alloc_other _ _ _ _ l0 H) by discriminate
+               end;
+             unfold slot_loc; rewrite ?upd_other by discriminate; reflexivity|]; split;
             [intros k0;
              repeat match goal with
                | H : rc_inc _ _ = Some (?s0, _) |- context [mem ?s0 ?l0] => rewrite (rc_inc_other _ _ _ _ l0 H) by discriminate
